@@ -2,24 +2,27 @@
 PROPS["C18"] = dict(
     props_file="Properties/C18.v",
     harnesses=[
-        dict(cmd="creds", mod="root", model="Model.Creds", quick=800, thorough=60000, shard=200,
+        dict(cmd="creds", mod="root", model="Model.Creds", quick=600, thorough=60000, shard=100,
              require=["op.pull", "op.remove", "op.query", "op.multi", "op.connect", "op.len", "auth.nil",
                       "auth.sa.empty", "auth.sa.url", "auth.sa.bare", "auth.sa.bad",
                       "auth.form.userpass", "auth.form.token", "auth.form.base64",
                       "pull.invalid-ref", "pull.backend-fails", "query.docker-alias", "case.starts-unconnected"]),
         dict(cmd="credsfetch", mod="root", model="Model.Headers", quick=240, thorough=12000, shard=60,
              # only keys that depend on the generated inputs, not on what the implementation does with them
-             require=["mirror.hdr0", "mirror.hdr1", "mirror.hdr2", "mirror.hdr3", "mirror.invalid", "mirrors.0", "mirrors.2",
-                      "spawn.fetch", "spawn.check", "answer.403", "answer.400", "answer.401", "answer.3xx", "answer.2xx",
-                      "auth.keychain"]),
+             require=["mirror.table.nil", "mirror.table.empty", "mirror.table.one", "mirror.table.multi", "mirror.value.s", "mirror.value.l",
+                      "mirror.invalid", "mirrors.0", "mirrors.2", "mirrors.3", "spawn.fetch", "spawn.check",
+                      "answer.403", "answer.400", "answer.401", "answer.401.basic", "answer.401.bearer", "answer.3xx", "answer.2xx",
+                      "pull.noauth", "pull.userpass", "pull.useronly", "pull.token", "pull.sa.empty", "pull.sa.url"]),
     ],
     rule="creds: random histories (3..24 ops) of CRI connect / PullImage (image strings incl. docker.io short forms, digests, unparsable; "
          "auth = user+password | identity token | base64 auth (valid, NUL-padded, no colon, invalid) | several | none; server address empty | URL | "
          "scheme-less | unparsable; failing backend) / RemoveImage / other calls / credential queries over 9 hosts x 9 references / "
          "multiCredsFuncs with scripted neighbours; non-trivial = at least one query offered a credential and one refused. "
-         "credsfetch: 0..2 mirrors with string/list/empty/no header tables (+ invalid hosts), scripted answers for resolution and size probe, then up to 5 "
+         "credsfetch: 0..3 mirrors with header tables (nil / empty / 1-3 keys, string or list values, wrong-typed values) (+ invalid hosts), the image pulled through the real CRI "
+         "keychain (user+password | user only | identity token | bad | none; server address none / a mirror / origin / CDN / unparsable) feeding the real docker authorizers, "
+         "scripted answers for resolution and size probe incl. 401 Basic/Bearer challenges and token-server answers (200, bad JSON, 400/401/403/404/405, error), then up to 5 "
          "concurrent fetch/check calls run under a deterministic scheduler (held at the fetcher's scheduling point and at every request) with answers "
-         "200/206/204/3xx(+Location: CDN, same-host URL, another mirror's blob URL, none)/400/401/403/404/transport error; non-trivial = a redirect location "
+         "200/206/204/3xx(+Location: CDN, same-host URL, another mirror's blob URL, none)/400/401(+Basic, Bearer realm 0/1, invalid_token, no realm)/403/404/transport error; non-trivial = a redirect location "
          "was contacted, a 403 refresh happened and a configured header was sent; distinct = distinct Coq case terms. "
          "Epilogue per case (oracle only): the image was pulled through the real CRI keychain (server address none / mirror / origin / CDN), the keychain feeds the "
          "real docker authorizer, the current target and then the registry host answer 401 + Basic challenge: an Authorization header may only reach a host the pull's server address names",
@@ -28,8 +31,9 @@ PROPS["C18"] = dict(
         "reference normalisation (distribution/reference.ParseDockerRef + containerd reference.Parse/Spec.String) is a contract: the model identifies a "
         "reference with the index of its normalised form; the harness table fixes the expected index by hand and the run checks it",
         "net/url.Parse(...).Host and encoding/base64 are contracts: the model takes the server address / auth field in the structured form they are rendered from",
-        "containerd's docker.Authorizer (which host it asks credentials for, token caching, Authorization header) is a contract; the fetcher is driven with the "
-        "authorizer RegistryHostsFromConfig builds, 401 answers carry no challenge",
+        "containerd's docker.Authorizer is third-party code modelled by contract in Model/Headers.v (per-host handlers, Basic/Bearer, token fetch POST then GET "
+        "fallback, token and error caching); the correspondence run drives the real one; a token fetch is atomic w.r.t. other fetcher threads; token expiry is not exercised",
+        "the keychain state is constant during the life of one fetcher (the authorizer keeps the credential it obtained when the handler was created)",
         "fetcher threads interleave at the granularity of the critical sections of urlMu / singleRangeMu and of whole request/response exchanges; "
         "Go-level data races are outside the model",
     ],
